@@ -22,7 +22,7 @@ ASSUMPTIONS = ["documented exception types: ParseError, SsbCompilerError, ValueE
 
 def shards(tier, seed):
     n = 25 if tier == "quick" else 500
-    out = [{"kind": "degenerate", "seed": seed}, {"kind": "imports", "seed": seed, "n": 12 if tier == "quick" else 120}]
+    out = [{"kind": "degenerate", "seed": seed}, {"kind": "imports", "seed": seed, "n": 72 if tier == "quick" else 144}]
     for s in shard_seeds(seed, 14, "C10"):
         out.append({"kind": "mutate", "seed": s, "n": n, "depth": 2})
     return out
@@ -196,12 +196,14 @@ def run_imports(shard, acc, rnd):
                 main = 'import "./main.exps";\n' + main
             elif kind == "routine_in_import":
                 main = 'import "./lib/a.exps";\n' + main
-                files["lib/a.exps"] = rnd.choice(['macro ma() { x(); }\ndef 1 { y(); }\n', 'def 0 { y(); }\n', 'coro C { y(); }\nmacro ma() { x(); }\n',
-                                                  'macro ma() { x(); }\ndef 0 for actor 3 { alias previous; }\n'])
+                variants = ['macro ma() { x(); }\ndef 1 { y(); }\n', 'def 0 { y(); }\n', 'coro C { y(); }\nmacro ma() { x(); }\n',
+                            'macro ma() { x(); }\ndef 0 for actor 3 { alias previous; }\n', 'macro ma() { x(); }\ncoro EVENT_X { Lock(1); hold; }\n',
+                            'def 2 for object 5 { y(); }\nmacro ma() { x(); }\n']
+                files["lib/a.exps"] = variants[(i // len(kinds)) % len(variants)]
             elif kind == "routine_in_nested_import":
                 main = 'import "./lib/a.exps";\n' + main
                 files["lib/a.exps"] = 'import "./b.exps";\nmacro ma() { x(); }\n'
-                files["lib/b.exps"] = 'macro mb() { y(); }\ndef 0 { y(); }\n'
+                files["lib/b.exps"] = ['macro mb() { y(); }\ndef 0 { y(); }\n', 'macro mb() { y(); }\ncoro C2 { y(); }\n'][(i // len(kinds)) % 2]
             elif kind == "routine_in_lookup_import":
                 main = 'import "c.exps";\n' + main
                 files["look/c.exps"] = 'macro mc() { z(); }\ndef 3 { y(); }\n'
